@@ -1,5 +1,6 @@
 #!/bin/sh
-# usage: tools/rebase_seed.sh C17-1 -- tries to re-apply a seeded patch whose context moved (git apply -C1, -C0, patch -F3) on /repo HEAD,
+# usage: tools/rebase_seed.sh C17-1 -- tries to re-apply a seeded patch whose context moved (git apply -C1, patch -F3; never -C0: it
+# places hunks without any context and produced syntactically broken trees once; changed files are byte-compiled) on /repo HEAD,
 # re-confirms it (demo 0 on clean, non-zero patched, 39 tests) and, if all holds, replaces seeded/<id>/patch.diff by the regenerated diff.
 s="$1"; D=/verif/seeded/$s; W=/tmp/rebase_$s.$$
 git -C /repo worktree add -q --detach "$W" HEAD || exit 2
@@ -8,16 +9,16 @@ run; c=$?
 cd "$W"
 if git apply "$D/patch.diff" 2>/dev/null; then how=plain
 elif git apply -C1 "$D/patch.diff" 2>/dev/null; then how=C1
-elif git apply -C0 "$D/patch.diff" 2>/dev/null; then how=C0
 elif patch -p1 -s -F3 --no-backup-if-mismatch < "$D/patch.diff" >/dev/null 2>&1; then how=fuzz; find . -name '*.rej' -o -name '*.orig' | xargs rm -f
 else how=FAILED; git checkout -q -- .; find . -name '*.rej' -o -name '*.orig' | xargs rm -f
 fi
 if [ "$how" != FAILED ]; then
   git diff > /tmp/rebase_$s.diff
+  for f in $(git diff --name-only); do /venv/bin/python -m py_compile "$f" 2>/dev/null || how=SYNTAX; done
   run; p=$?
   t=$(/venv/bin/python -m pytest -q -p no:cacheprovider --timeout=900 --continue-on-collection-errors 2>&1 | tail -1)
   case "$t" in *"39 passed"*) ok=1;; *) ok=0;; esac
-  if [ "$c" = 0 ] && [ "$p" != 0 ] && [ "$ok" = 1 ]; then cp /tmp/rebase_$s.diff "$D/patch.diff"; res=REBASED; else res="NOT-OK(clean=$c patched=$p tests=$ok)"; fi
+  if [ "$how" != SYNTAX ] && [ "$c" = 0 ] && [ "$p" != 0 ] && [ "$ok" = 1 ]; then cp /tmp/rebase_$s.diff "$D/patch.diff"; res=REBASED; else res="NOT-OK(clean=$c patched=$p tests=$ok)"; fi
 else res="clean=$c"; fi
 cd /verif; git -C /repo worktree remove --force "$W"
 echo "$s $how $res"
